@@ -110,6 +110,30 @@ struct block_matrix_adapter {
             }
         }
 
+        // The iterator owns the base iterators placed into its own buffer:
+        // a copy has to own copies of them instead of pointing into the
+        // buffer of the (possibly temporary) source.
+        row_iterator(const row_iterator &other)
+            : done(other.done), cur_col(other.cur_col), cur_val(other.cur_val)
+        {
+            base = reinterpret_cast<Base*>(buf.data());
+            for(int i = 0; i < BlockSize; ++i)
+                new (base + i) Base(other.base[i]);
+        }
+
+        row_iterator& operator=(const row_iterator &other) {
+            if (this != &other) {
+                for(int i = 0; i < BlockSize; ++i) {
+                    base[i].~Base();
+                    new (base + i) Base(other.base[i]);
+                }
+                done    = other.done;
+                cur_col = other.cur_col;
+                cur_val = other.cur_val;
+            }
+            return *this;
+        }
+
         ~row_iterator() {
             for(int i = 0; i < BlockSize; ++i) base[i].~Base();
         }
